@@ -39,11 +39,11 @@ theorem act_eq_iff (F : Frame) (p q : Pt) : F.act p = F.act q ↔ p = q :=
 
 theorem inv_act (F : Frame) (p : Pt) : F.inv.act (F.act p) = p := by
   rcases F with ⟨S, t⟩; rcases p with ⟨px, py⟩
-  cases S <;> simp [Frame.act, Frame.inv, Sym.apply, Sym.inv] <;> constructor <;> ring
+  cases S <;> simp [Frame.act, Frame.inv, Sym.apply, Sym.inv]
 
 theorem act_inv (F : Frame) (p : Pt) : F.act (F.inv.act p) = p := by
   rcases F with ⟨S, t⟩; rcases p with ⟨px, py⟩
-  cases S <;> simp [Frame.act, Frame.inv, Sym.apply, Sym.inv] <;> constructor <;> ring
+  cases S <;> simp [Frame.act, Frame.inv, Sym.apply, Sym.inv]
 
 /-- orientation: `vecDir (F a) (F b) (F c) = det F · vecDir a b c` -/
 theorem vecDir_act (F : Frame) (a b c : Pt) :
